@@ -407,6 +407,15 @@ def step (st : St) (line : String) : St × String :=
         match (policyOf p).bind m.structure_.encRights with
         | .error e => (st, errLine e)
         | .ok rs => (st, "ok " ++ rightsStr rs)
+  | "tamper_enc" :: es :: ed :: _ =>
+    -- any modification of an encapsulation: by the binding theorem (`CC.Props.C07`) the result
+    -- passes no tag check; it is represented as an encapsulation nothing opens
+    match handle 'E' es, handle 'E' ed with
+    | some i, some j =>
+      match getSlot st.encs i with
+      | none => (st, "err NoSuchHandle")
+      | some (x, s) => ({ st with encs := setSlot st.encs j (some ({ x with targets := [] }, s)) }, "ok")
+    | _, _ => (st, "bad-op")
   | ["pke_enc", ks, xs, p, ptx] =>
     match handle 'K' ks, handle 'X' xs, optBytes ptx with
     | some k, some j, some (some ptx) =>
